@@ -25,7 +25,7 @@ META = {
 }
 REQUIRED_ORACLES = ["status-is-enum-member", "request-buildable", "clordid-fresh", "origclordid-is-live-id", "one-request-outstanding", "quiescent-agreement",
                     "finished-refuses"]
-REQUIRED_COUNTERS = ["exchange_actions:bust", "exchange_actions:pending:accept", "exchange_actions:fill:partial"]
+REQUIRED_COUNTERS = ["exchange_actions:bust", "exchange_actions:bust:after-cancel", "exchange_actions:pending:accept", "exchange_actions:fill:partial"]
 NSHARDS = 16
 DEPTH = {"quick": 9, "thorough": 13}
 NRAND = {"quick": 200, "thorough": 20000}
